@@ -170,6 +170,46 @@ theorem calcPenalty_ok {vlaExtra ndim : Nat} {nspl : List Nat} {dim nk order por
     intro k hk'
     exact ⟨trip_lt hrow hk', hk'⟩
 
+theorem foldl_mul (l : List Nat) : ∀ a, l.foldl (· * ·) a = a * prodL l := by
+  induction l with
+  | nil => intro a; simp [prodL]
+  | cons x xs ih =>
+    intro a
+    simp only [prodL, List.foldl_cons]
+    rw [ih (a * x), ih (1 * x), Nat.one_mul, Nat.mul_assoc]
+
+theorem prodL_append (l1 l2 : List Nat) : prodL (l1 ++ l2) = prodL l1 * prodL l2 := by
+  unfold prodL; rw [List.foldl_append, foldl_mul l2]; rfl
+
+theorem prodL_cons (x : Nat) (l : List Nat) : prodL (x :: l) = x * prodL l := by
+  unfold prodL; rw [List.foldl_cons, foldl_mul l, Nat.one_mul]; rfl
+
+theorem prodL_split (l : List Nat) (m : Nat) (h : m < l.length) :
+    prodL l = prodL (l.take m) * (l.getD m 0 * prodL (l.drop (m+1))) := by
+  have h1 : l = l.take m ++ l[m] :: l.drop (m+1) := by
+    rw [← List.drop_eq_getElem_cons h, List.take_append_drop]
+  have h2 : l.getD m 0 = l[m] := by
+    simp only [List.getD_eq_getElem?_getD, List.getElem?_eq_getElem h, Option.getD_some]
+  rw [h2]
+  conv => lhs; rw [h1]
+  rw [prodL_append, prodL_cons]
+
+theorem monoTail_ok (naxes : List Nat) (m : Nat) (h : m < naxes.length) : monoTail naxes m = .ok := by
+  unfold monoTail
+  simp only [seqAll_cons_ok, seqAll_nil, forN_ok_iff, rd_ok_iff, and_true]
+  refine ⟨h, ?_⟩
+  intro i hi j hj k hk
+  rw [prodL_split naxes m h]
+  generalize prodL (naxes.take m) = s1 at *
+  generalize prodL (naxes.drop (m+1)) = s2 at *
+  generalize naxes.getD m 0 = nm at *
+  have e1 : i * s2 * nm = i * (nm * s2) := by rw [Nat.mul_assoc, Nat.mul_comm s2 nm]
+  have hA : (j + 1) * s2 + k < nm * s2 := trip_lt (by omega) hk
+  have hB : j * s2 + k < nm * s2 := trip_lt (by omega) hk
+  have hC : ∀ r, r < nm * s2 → i * (nm * s2) + r < s1 * (nm * s2) := fun r hr => trip_lt hi hr
+  rw [e1]
+  exact ⟨by have := hC _ hA; omega, by have := hC _ hB; omega⟩
+
 /-! ### the check block as a proposition -/
 
 /-- What "every check of the repaired block falls through" says, spelled out. -/
